@@ -52,6 +52,26 @@ func (p *bbPublisher) write() error {
 	return p.c.WritePacketRTP(p.media, &rtp.Packet{Header: rtp.Header{Version: 2, PayloadType: 96, SequenceNumber: p.seq, Timestamp: uint32(p.seq) * 3000, SSRC: 1}, Payload: []byte{5, 1, 2, 3, 4}})
 }
 
+// writeParams sends in-band parameter sets (alternately two different SPS / PPS pairs) followed by a key frame,
+// as a camera that changes resolution does: the server updates the published description.
+func (p *bbPublisher) writeParams(alt bool) error {
+	sps := []byte{0x67, 0x42, 0xc0, 0x28, 0xd9, 0x00, 0x78, 0x02, 0x27, 0xe5, 0x84, 0x00, 0x00, 0x03, 0x00, 0x04, 0x00, 0x00, 0x03, 0x00, 0xf0, 0x3c, 0x60, 0xc9, 0x20}
+	pps := []byte{0x08, 0x06, 0x07, 0x08}
+	if alt {
+		sps = []byte{0x67, 0x64, 0x00, 0x20, 0xac, 0xd9, 0x40, 0x78, 0x02, 0x27, 0xe5, 0x9a, 0x80, 0x80, 0x80, 0xa0}
+		pps = []byte{0x08, 0x07, 0x08, 0x09}
+	}
+	ts := uint32(p.seq+1) * 3000
+	for i, nalu := range [][]byte{sps, pps, {0x65, 1, 2, 3, 4}} {
+		p.seq++
+		err := p.c.WritePacketRTP(p.media, &rtp.Packet{Header: rtp.Header{Version: 2, PayloadType: 96, SequenceNumber: p.seq, Timestamp: ts, SSRC: 1, Marker: i == 2}, Payload: nalu})
+		if err != nil {
+			return err
+		}
+	}
+	return nil
+}
+
 func (p *bbPublisher) close() { p.c.Close() }
 
 type bbReaderCli struct {
